@@ -18,7 +18,7 @@ ID = 'C01'
 LEVEL = 'exploration'
 
 TIERS = {
-    'quick': {'runs': 6000, 'classes': 8, 'budget_s': 70},
+    'quick': {'runs': 60000, 'classes': 8, 'budget_s': 70},
     'thorough': {'runs': 400000, 'classes': 32, 'budget_s': 1100},
 }
 
